@@ -83,14 +83,15 @@ func (ds *dataStore) AppendRecord(rec *Record) (pos Position, err error) {
 	pos.ChunkID = ds.newHead
 	pos.Offset = currOffset
 	wrec.pos = pos
-	ds.chunks[ds.newHead].AppendRecord(wrec)
-	vhook.PointI("data.append.afterPublish", int64(pos.ChunkID), int64(pos.Offset))
-	ds.wbufSize += size
-
+	// account for the record before it is published: once it is in the chunk's
+	// buffer a flush that is already under way may write it and free its body
 	if wrec.rec.Payload.Ver > 0 {
 		cmem.DBRL.FlushData.AddSizeAndCount(rec.Payload.CArray.Cap)
 		cmem.DBRL.SetData.SubSizeAndCount(rec.Payload.CArray.Cap)
 	}
+	ds.chunks[ds.newHead].AppendRecord(wrec)
+	vhook.PointI("data.append.afterPublish", int64(pos.ChunkID), int64(pos.Offset))
+	ds.wbufSize += size
 
 	if cmem.DBRL.FlushData.Size > int64(Conf.FlushWake) {
 		WakeupFlush()
